@@ -75,10 +75,11 @@ def _box(x0, y0, x1, y1):
     return pen.glyph()
 
 
-def build_layout_font(with_colr=None):
+def build_layout_font(with_colr=None, space=True):
+    GLYPHS = [g for g in globals()["GLYPHS"] if space or g != "space"]
     fb = FontBuilder(1000, isTTF=True)
     fb.setupGlyphOrder(GLYPHS)
-    cmap = {0x20: "space"}
+    cmap = {0x20: "space"} if space else {}
     for g in GLYPHS:
         if len(g) == 1:
             cmap[ord(g)] = g
@@ -100,7 +101,7 @@ def build_layout_font(with_colr=None):
     fb.setupHorizontalMetrics({g: (300 + 13 * i, 10 + i) for i, g in enumerate(GLYPHS)})
     fb.setupHorizontalHeader(ascent=800, descent=-200)
     fb.setupNameTable({"familyName": "Verif", "styleName": "Regular"})
-    fb.setupOS2()
+    fb.setupOS2(sTypoAscender=800, sTypoDescender=-200)
     fb.setupPost()
     fb.addOpenTypeFeatures(FEA)
     font = fb.font
